@@ -55,8 +55,16 @@ Definition prop_c13 (c : case) : bool :=
   | CUnpack o t old cfg (UErr _ _) after => gv_same_fields old after
   | CUnpack o t old cfg (UOk v) _ => frame_ok o t cfg old v
   | CUnpack _ _ _ _ UPanic _ => false
-  | CHooked _ _ old (UErr _ _) after => gv_same_fields old after
-  | CHooked _ _ _ UPanic _ => false
+  (* vRegexp: a valid pair - the compiled fields are overwritten by what the configuration says,
+     also when they hold a compiled expression already ([after] carries the expected fields) *)
+  | CHooked what _ old ob after =>
+    if String.eqb what "vRegexp"
+    then match ob with UOk v => gv_eqb v after | _ => false end
+    else match ob with
+         | UErr _ _ => gv_same_fields old after
+         | UPanic => false
+         | _ => true
+         end
   | _ => true
   end.
 
